@@ -850,7 +850,7 @@ def _paper_rules(chk, pid, S, fi, host, R):
             if idx[0] == "tuple" and len(idx) == 3 and canon(idx[1]) == canon(DATE) and idx[2][0] == "elem" and idx[2][1][0] == "fld" and idx[2][1][2] == "_strat_children":
                 v = e.value
                 ok = (v[0] == "fld" and v[2] == R.PRICE and v[1][0] == "sub" and v[1][1][0] == "fld" and v[1][1][2] == "children" and canon(v[1][2]) == canon(idx[2]))
-                extra = [l for l in lits(e.guard) if not mentions_field(l[0], "_has_strat_children", SELF)]
+                extra = [l for l in plain(e.guard) if not mentions_field(l[0], "_has_strat_children", SELF)]
                 ok = ok and not extra
         chk.ob("C09.R5", ok, CORE, host, "publish-child-price", "on every update each sub-strategy's price is published into the parent's universe at the current date",
                where=fi.where, expected="_universe.loc[date, c] = children[c].price for c in _strat_children", found="%d publication sites" % len(pubs))
